@@ -916,7 +916,20 @@ func w2sCheck(s *simrt.Sim, sc *w2sScript, prop string, recs []*w2sRec, rec *w2R
 		// name the failure: which single relaxation (or combination) explains the history?
 		explained := ""
 		var ef w2sFlags
-		for mask := 1; mask < 8 && explained == ""; mask++ {
+		// Order of the candidates: a history in which a TTL was lowered on the live channel
+		// meets the known late-expiry behaviour of the memory broker (C17 finding: the heap
+		// item keeps the old deadline); if late expiry alone explains it, that is the
+		// explanation – blaming the version-suppressed publish that merely happened to sit
+		// in the same history would report a defect the code does not have (C19 false
+		// alarm, seed 1 run 7232). Without a lowered TTL the order is unchanged.
+		masks := []int{1, 2, 3, 4, 5, 6, 7}
+		if w2sLowered(rs) {
+			masks = []int{4, 1, 2, 3, 5, 6, 7}
+		}
+		for _, mask := range masks {
+			if explained != "" {
+				break
+			}
 			f := w2sFlags{UnverReset: mask&1 != 0, SupprRefresh: mask&2 != 0, LateOK: mask&4 != 0}
 			if r2, _, _, _ := run(f); r2 == w2LinOK {
 				explained, ef = f.String(), f
